@@ -35,7 +35,7 @@ _NONTRIVIAL = {'meta:example', 'meta:count', 'meta:relation', 'meta:definition',
 
 @st.composite
 def _cases(draw):
-    res = draw(gen.resources(max_lexicons=3))
+    res = draw(gen.resources(gen.SPACED, max_lexicons=3))
     if len(res['lexicons']) > 1 and draw(st.integers(0, 3)) == 0:
         # a file may hold an extension whose base lives elsewhere, followed by other lexicons
         keep = [lx for lx in res['lexicons'][1:]]
@@ -55,6 +55,8 @@ def _classify(case):
         tags.append('extension-before-plain-lexicon')
     if case['target'] != case['resource']['lmf_version']:
         tags.append('cross-version')
+    if _has_preserved(case['resource']):
+        tags.append('xml:space-preserve')
     return bool(_NONTRIVIAL & set(tags)), tags
 
 
@@ -88,6 +90,11 @@ def oracle(case):
     # 3. fixed point
     g2 = d / 'out2.xml'
     lmf.dump(reloaded, g2)
+    if v != '1.3' and _has_preserved(model):
+        # version v cannot express white space kept by xml:space: the first dump is not the
+        # dump of anything load() returns for v; the fixed point starts one step later
+        g, g2 = g2, d / 'out3.xml'
+        lmf.dump(lmf.load(g, progress_handler=None), g2)
     b1, b2 = g.read_bytes(), g2.read_bytes()
     if b1 != b2:
         i = next((k for k in range(min(len(b1), len(b2))) if b1[k] != b2[k]),
@@ -98,6 +105,14 @@ def oracle(case):
     return out
 
 
+def _has_preserved(x) -> bool:
+    if isinstance(x, dict):
+        return x.get('space') == 'preserve' or any(_has_preserved(v) for v in x.values())
+    if isinstance(x, list):
+        return any(_has_preserved(v) for v in x)
+    return False
+
+
 def _fp(case):
     return fingerprint([case['resource'], case['target']])
 
@@ -106,5 +121,5 @@ SUBS = [
     Sub('roundtrip', oracle, _classify, strategy=lambda tier: _cases(),
         budget={'quick': 60, 'thorough': 2000}, fingerprint=_fp,
         require_tags=('extension', 'cross-version', 'meta:example', 'text-over-8k',
-                      'extension-before-plain-lexicon')),
+                      'extension-before-plain-lexicon', 'xml:space-preserve')),
 ]
